@@ -422,6 +422,33 @@ def run(ctx):
                                          MetaMessage('lyrics', text='la {la}', time=3)]))
         judge_repr(ctx, mid, 'eval(repr(file)) == file', f'file-repr:tracks{min(len(mid.tracks), 2)}',
                    lambda: {'kind': 'file', 'repr': safe_repr(mid)})
+        # where a message comes from makes no difference: the ones the library hands out itself - the merged track, an
+        # iteration over the file (times in seconds), merge_tracks(), a file that was saved and read back, a copy, a
+        # thawed frozen message - convert like any other
+        try:
+            import io as _io
+            from mido.midifiles.tracks import merge_tracks as _merge
+            handed = [('merged_track', m) for m in mid.merged_track]
+            handed += [('merge_tracks', m) for m in _merge(mid.tracks, skip_checks=(j % 2 == 0))]
+            if mid.type != 2 and all(isinstance(x.time, int) and x.time >= 0 for tr_ in mid.tracks for x in tr_):
+                handed += [('iteration', m) for m in mid]
+                buf = _io.BytesIO()
+                mid.save(file=buf)
+                handed += [('read-back', m) for tr_ in MidiFile(file=_io.BytesIO(buf.getvalue()), charset=mid.charset).tracks for m in tr_]
+            handed += [('copy', m.copy(time=m.time)) for tr_ in mid.tracks for m in tr_]
+        except Exception as exc:
+            handed = []
+            ctx.extra('provenance_skipped', {type(exc).__name__: 1})
+        for src, m in handed[:60]:
+            judge_repr(ctx, m, 'eval(repr(meta)) == meta' if m.is_meta else 'eval(repr(m)) == m', f'handed-out:{src}:{"meta" if m.is_meta else "msg"}',
+                       lambda: {'kind': 'file', 'from': src, 'repr': safe_repr(m, 200)})
+            if not m.is_meta:
+                try:
+                    ok = Message.from_str(str(m)) == m and Message.from_dict(m.dict()) == m
+                except Exception as exc:
+                    ok = False
+                ctx.check('from_str(str(m)) == m', ok, f'handed-out:{src}:str', lambda: {'kind': 'file', 'from': src, 'repr': safe_repr(m, 200)}, None)
+            n += 1
         ctx.nontrivial(('file', safe_repr(mid)))
         n += 1
     # invalid text classes
